@@ -1,4 +1,5 @@
 use clap::Parser;
+use std::io::Write;
 
 use brush_core::{ExecutionControlFlow, ExecutionResult, builtins};
 
@@ -7,7 +8,7 @@ use brush_core::{ExecutionControlFlow, ExecutionResult, builtins};
 pub(crate) struct ExitCommand {
     /// The exit code to return.
     #[arg(allow_hyphen_values = true)]
-    code: Option<i64>,
+    code: Option<String>,
 }
 
 impl builtins::Command for ExitCommand {
@@ -18,8 +19,18 @@ impl builtins::Command for ExitCommand {
         context: brush_core::ExecutionContext<'_, SE>,
     ) -> Result<brush_core::ExecutionResult, Self::Error> {
         #[expect(clippy::cast_sign_loss)]
-        let code_8bit = if let Some(code_32bit) = &self.code {
-            (code_32bit & 0xFF) as u8
+        let code_8bit = if let Some(code) = &self.code {
+            if let Ok(code_64bit) = code.trim().parse::<i64>() {
+                (code_64bit & 0xFF) as u8
+            } else {
+                // The shell still exits, with the status of a usage error.
+                writeln!(
+                    context.stderr(),
+                    "{}: {code}: numeric argument required",
+                    context.command_name
+                )?;
+                2
+            }
         } else {
             context.shell.last_exit_status()
         };
